@@ -1,3 +1,3 @@
-import FluteModel.Drv.Util
--- stub: engine `fdtabs` not built yet
-def main : IO Unit := Flute.Drv.runDriver () (fun _ _ => ((), "bad-op"))
+import FluteModel.Drv.Fdtabs
+def main : IO Unit :=
+  Flute.Drv.runDriver ({} : Flute.Drv.Fdtabs.DState) (fun st args => Flute.Drv.Fdtabs.step st args)
